@@ -1,4 +1,5 @@
 import Driver.Pure
+import Driver.Accept
 
 partial def pureLoop (h : IO.FS.Stream) (out : IO.FS.Stream) : IO Unit := do
   let line ← h.getLine
@@ -11,4 +12,5 @@ def main (args : List String) : IO UInt32 := do
   let stdout ← IO.getStdout
   match args with
   | ["pure"] => pureLoop stdin stdout; return 0
+  | ["queue"] => Driver.acceptLoop Driver.queueAcceptor stdin stdout; return 0
   | _ => IO.eprintln "usage: garr_model pure|queue|adder|..."; return 2
